@@ -3,6 +3,7 @@ package main
 import (
 	"context"
 	"fmt"
+	"github.com/attestantio/dirk/services/checker"
 	"os"
 	"path/filepath"
 	"runtime"
@@ -210,6 +211,74 @@ func cmdLive(args []string) int {
 			a.Close(ctx)
 			b.Close(ctx)
 		}
+	}
+	// a client whose permissions name exactly the duties' operations (the least-privilege layout of the
+	// documentation) instead of "All": batch and one-at-a-time must still agree, and the fresh duties be signed
+	if !twinStuck {
+		duty := map[string][]*checker.Permissions{}
+		seenW := map[string]bool{}
+		for _, acc := range fx.Accounts {
+			if !seenW[acc.Wallet] {
+				seenW[acc.Wallet] = true
+				duty["duty"] = append(duty["duty"], &checker.Permissions{Path: acc.Wallet, Operations: []string{"Sign beacon attestation", "Sign beacon proposal", "Access account"}})
+			}
+		}
+		a, err := NewInstance(ctx, fx, InstanceOpts{AdminIPs: admin, Perms: duty})
+		if err != nil {
+			return 2
+		}
+		b, err := NewInstance(ctx, fx, InstanceOpts{AdminIPs: admin, Perms: duty})
+		if err != nil {
+			return 2
+		}
+		g := newGenState(fx, rng.Fork())
+		for round := 0; round < 3; round++ {
+			batch := &Op{Kind: KAttests, Client: "duty", IP: "10.0.0.1"}
+			var usable []*AcctInfo
+			for _, acc := range fx.Accounts {
+				if acc.Usable && acc.Signer {
+					usable = append(usable, acc)
+				}
+			}
+			for i := 0; i < 4 && i < len(usable); i++ {
+				d := g.attData(uint64(2*round), uint64(2*round+1), mkDomain(domAttester, 0))
+				d.BBR = fill32(byte(10*round + i + 1))
+				batch.Addrs = append(batch.Addrs, g.addrFor(usable[(i+round)%len(usable)]))
+				batch.Atts = append(batch.Atts, d)
+			}
+			verifSetHook(a)
+			bo, err := a.Exec(ctx, batch)
+			if err != nil {
+				return 2
+			}
+			verifSetHook(b)
+			for i := range batch.Addrs {
+				so, err := b.Exec(ctx, &Op{Kind: KAttest, Client: "duty", IP: "10.0.0.1", Addrs: []Addr{batch.Addrs[i]}, Atts: []AttData{batch.Atts[i]}})
+				if err != nil {
+					return 2
+				}
+				if i < len(bo) && (bo[i].State != so[0].State || (bo[i].SigLen > 0) != (so[0].SigLen > 0)) {
+					monFail = append(monFail, fmt.Sprintf("client with permissions [Sign beacon attestation, Sign beacon proposal, Access account], round %d position %d (attestation %d->%d): in the batch %s/sig=%v, alone %s/sig=%v",
+						round, i, 2*round, 2*round+1, bo[i].State, bo[i].SigLen > 0, so[0].State, so[0].SigLen > 0))
+				}
+				if so[0].State != core.ResultSucceeded {
+					monFail = append(monFail, fmt.Sprintf("client with permissions [Sign beacon attestation, ...]: the advancing attestation %d->%d at position %d is not signed alone (%s)", 2*round, 2*round+1, i, so[0].State))
+				}
+			}
+			// ... and the block of the round
+			pa := usable[round%len(usable)]
+			po, err := b.Exec(ctx, &Op{Kind: KPropose, Client: "duty", IP: "10.0.0.1", Addrs: []Addr{g.addrFor(pa)},
+				Props: []PropData{{Dom: mkDomain(domProposer, 0), Slot: uint64(100 + round), Pidx: 1, Parent: fill32(0), State: fill32(1), Body: fill32(1)}}})
+			if err != nil {
+				return 2
+			}
+			if po[0].State != core.ResultSucceeded {
+				monFail = append(monFail, fmt.Sprintf("client with permissions [..., Sign beacon proposal, ...]: the advancing proposal at slot %d is not signed (%s)", 100+round, po[0].State))
+			}
+			run.stats["leastprivilege.rounds"]++
+		}
+		a.Close(ctx)
+		b.Close(ctx)
 	}
 	twinSteps := run.steps
 
